@@ -8,6 +8,9 @@ Written from the text of C04/C05, not from the implementation:
   * conditional (protocol-following transaction: one register at a time, ascending addresses,
     possibly abandoned, idle gaps allowed): read data = slice of the value presented when the
     first chunk was read; write data at the strobe = the chunks written in this transaction.
+    A write to an unmapped address or to a register that is not writable "has no effect on any
+    register" (C05): it does not disturb an open write transaction either (it does close the read
+    side, about which nothing of the kind is promised).
     The reads of a transaction ascend strictly, so do its writes, and the addresses of all its
     accesses together never descend: a read and a write of the same chunk may share a cycle or
     follow each other in either order (the read and the write of one register woven together).
@@ -67,7 +70,11 @@ class RegFile:
         mask = (1 << self.dw) - 1
         hit = self.by_addr.get(addr) if (r_stb or w_stb) else None
         e.hit = hit
-        if r_stb or w_stb:
+        if w_stb and not r_stb and (hit is None or not hit.writable):
+            # ignored write: the write transaction in progress (if any) is untouched
+            self.snap = None
+            self.last_r = None
+        elif r_stb or w_stb:
             if hit is None:
                 self._break()
             else:
@@ -156,10 +163,17 @@ def expand_csr_ops(ops, regs, addr_width, data_width, garbage):
             mode = op.get("mode", "r")
             gaps = op.get("gaps") or []
             data = op.get("data") or []
+            pokes = op.get("pokes") or {}
             for j in range(n):
                 g = int(gaps[j]) if j < len(gaps) else 0
                 if g > 0:
                     idle(min(g, 4), "gap")
+                if str(j) in pokes and j > 0:
+                    # a stray write to some other address between two chunks (it is ignored if
+                    # that address is unmapped or not writable - the tracker decides)
+                    t = len(cyc)
+                    cyc.append((int(pokes[str(j)]) & amask, 0, 1, garbage(t + 4242, data_width) | 1,
+                                "poke"))
                 d = int(data[j]) & dmask if j < len(data) else 0
                 cyc.append((start + j, int(mode in ("r", "rw")), int(mode in ("w", "rw")), d,
                             "txn" if n == size else "txn-abort"))
